@@ -107,6 +107,22 @@ func c10(c *Ctx) {
 			}
 		}
 	}
+	// a by-name lookup is a function-table lookup when it reaches gosym's LookupFunc or yields a *gosym.Func
+	isFuncLookup := func(cal *ssa.Function) bool {
+		if cal == nil {
+			return false
+		}
+		if cal.Signature.Results().Len() > 0 && strings.Contains(cal.Signature.Results().At(0).Type().String(), "gosym.Func") {
+			return true
+		}
+		for f := range p.staticReach(cal) {
+			if len(callsTo(f, "(*debug/gosym.Table).LookupFunc")) > 0 {
+				return true
+			}
+		}
+		return false
+	}
+	slideIsFunc := map[*ssa.Global]bool{}
 	// ---- R2 anchors name what they measure
 	for g, st := range slides {
 		cons := "anchor of " + g.Name()
@@ -156,7 +172,8 @@ func c10(c *Ctx) {
 		if lookupCall != nil {
 			cal := staticCallee(lookupCall.Common())
 			isFuncObj := !strings.Contains(rtObj, "stub") && func() bool { _, ok := p.SSA.ImportedPackage(Mod + "/" + uxPkg).Members[lastDot(rtObj)].(*ssa.Function); return ok }()
-			wantFunc := cal != nil && strings.Contains(strings.ToLower(cal.Name()), "func")
+			wantFunc := isFuncLookup(cal)
+			slideIsFunc[g] = isFuncObj
 			r.Check(isFuncObj == wantFunc, "C10.R2", cons+" table kind", p.Pos(posOf(lookupCall)), "function anchor from the function table / variable anchor from the symbol table", "the anchor is looked up in the wrong table (function vs variable)")
 		}
 		// slide only set when the lookup succeeded
@@ -218,8 +235,8 @@ func c10(c *Ctx) {
 					// function lookup uses the function slide, variable lookup the variable slide
 					if okOps && lookup != nil && slideG != nil {
 						cal := staticCallee(lookup.Common())
-						fl := cal != nil && strings.Contains(strings.ToLower(cal.Name()), "func")
-						sl := strings.Contains(strings.ToLower(slideG.Name()), "func")
+						fl := isFuncLookup(cal)
+						sl := slideIsFunc[slideG]
 						r.Check(fl == sl, "C10.R3", cons+" slide kind", p.Pos(posOf(ret)), "function address + function slide / variable address + variable slide", "a function lookup adds the variable slide (or vice versa)")
 					}
 				}
